@@ -17,7 +17,7 @@ import tempfile
 import numpy as real_np
 import z3
 
-from symx import core, loader, nz
+from symx import core, loader, nz, slicer
 from symx.core import SN, SB, real, angle_deg, explore
 from symx.report import main
 from checks import C16, r2c
@@ -163,8 +163,45 @@ def h_backward(mods):
     return h
 
 
+def h_bounds(fac):
+    """the fit bounds on the two sigmas must not depend on which image axis the island is long in: sx/sy lie along/across
+    theta (free over all angles), not along image rows/columns"""
+    def h(c):
+        xs, ys = core.integer('xsize'), core.integer('ysize')
+        c.assume(xs.e >= 1)
+        c.assume(ys.e >= 1)
+        pa_, pb_ = real('pixbeam_a'), real('pixbeam_b')
+        c.assume(pb_.e > 0)
+        c.assume(pa_.e >= pb_.e)
+        F2C = real('FWHM2CC')
+        c.assume(F2C.e > z3.RealVal('0.42'))
+        c.assume(F2C.e < z3.RealVal('0.43'))
+
+        class Dat:
+            def __init__(self, shape):
+                self.shape = shape
+
+        class PB:
+            a, b, pa = pa_, pb_, real('pixbeam_pa')
+        import math as real_math
+
+        class M:
+            @staticmethod
+            def sqrt(v):
+                return real_math.sqrt(v) if not isinstance(v, SN) else v.sqrt()
+        g = dict(core.BUILTINS, FWHM2CC=F2C, math=M, np=loader.NPProxy())
+        f = fac(g)
+        b1 = f(Dat((xs, ys)), PB())
+        b2 = f(Dat((ys, xs)), PB())
+        names = ['sx_min', 'sx_max', 'sy_min', 'sy_max']
+        c.oblige('bounds:the sigma bounds are the same for an island and its transpose', z3.And([core.lift(u) == core.lift(v) for u, v in zip(b1, b2)]))
+        c.oblige('bounds:lower bounds below the psf, upper bounds above it', z3.And(core.lift(b1[0]) <= pb_.e * F2C.e, core.lift(b1[2]) <= pb_.e * F2C.e, core.lift(b1[1]) >= pa_.e * F2C.e, core.lift(b1[3]) >= pa_.e * F2C.e))
+        return dict()
+    return h
+
+
 # ------------------------------------------------------------------ replay oracle: the property's own closed loop (noise-free)
-def closed_loop(seed=0, trials=3):
+def closed_loop(seed=0, trials=3, elongated=None):
     """inject an isolated Gaussian with a real WCS, run the real blind finder with forced bkg/rms, compare"""
     import logging
     import random
@@ -187,10 +224,14 @@ def closed_loop(seed=0, trials=3):
             hdr['CDELT1'], hdr['CDELT2'] = -scale, scale
             bm = 4.0 * scale
             hdr['BMAJ'], hdr['BMIN'], hdr['BPA'] = bm, bm, 0.0
+            if elongated and t == 0:
+                hdr['BMAJ'], hdr['BMIN'], hdr['BPA'] = bm * 1.05, bm, elongated[1]
             helper = wh.WCSHelper.from_header(hdr)
             r0, c0 = N / 2 + rng.uniform(-8, 8), N / 2 + rng.uniform(-8, 8)
             ra, dec = helper.pix2sky((r0 + 1, c0 + 1))
             a, b, pa = bm * rng.uniform(1.2, 2.0) * 3600, bm * rng.uniform(1.0, 1.15) * 3600, rng.uniform(-85, 85)
+            if elongated and t == 0:
+                a, b, pa = bm * 4.0 * 3600, bm * 1.0 * 3600, elongated[0]
             peak = rng.choice([1, -1]) * rng.uniform(5, 50)
             xo, yo, sx, sy, th = helper.sky2pix_ellipse((ra, dec), a / 3600, b / 3600, pa)
             s = 2 * math.sqrt(2 * math.log(2))
@@ -209,7 +250,7 @@ def closed_loop(seed=0, trials=3):
             px = helper.sky2pix((g.ra, g.dec))
             dpix = math.hypot(px[0] - (r0 + 1), px[1] - (c0 + 1))
             dpa = abs(((g.pa - pa + 90) % 180) - 90)
-            intf = peak * a * b / ((bm * 3600) ** 2)
+            intf = peak * a * b / ((hdr['BMAJ'] * 3600) * (hdr['BMIN'] * 3600))
             errs = dict(position_pix=dpix, peak=abs(g.peak_flux / peak - 1), a=abs(g.a / a - 1), b=abs(g.b / b - 1), pa_deg=dpa, int_flux=abs(g.int_flux / intf - 1))
             lim = dict(position_pix=0.02, peak=1e-3, a=5e-3, b=5e-3, pa_deg=0.5, int_flux=1e-2)
             for k in errs:
@@ -256,10 +297,58 @@ def run(rep):
     rep.stats(st)
     done = handle(rep, res, 'K-backward', done)
     rep.end_kernel()
+    # the derivatives handed to the optimiser (decided in full in C04): here one component, all 64 free-parameter subsets
+    from checks import C04
+    import random
+    rep.kernel('K-jacobian', functions=[FF + ':jacobian', FF + ':elliptical_gaussian'], bounds='one component, one symbolic pixel, all 64 subsets of free parameters (the full kernel is C04 K-rows)',
+               assumes=['oracle: chain-rule derivative of the term produced by executing the real model function'])
+    fit4 = C04.sym_fitting()
+    st, res = explore(C04.h_rows(fit4, 1, [0], ['all']))
+    rep.stats(st)
+    jdone = False
+    for r in res:
+        for ob in r['obligations']:
+            rep.count(ob['result'], ob['name'])
+            if ob['result'] == 'sat' and not jdone:
+                rng = random.Random(rep.seed)
+                free = (r['out'] or {}).get('free', [])
+                vary = [{p: ((0, p) in free) for p in C04.NAMES}]
+                bad, cls, detail = C04.num_jac_check(C04.default_vals(1, rng), 1, vary)
+                if not bad:
+                    bad, cls, detail = C04.num_jac_check(C04.default_vals(1, rng), 1, [{p: True for p in C04.NAMES}])
+                if rep.finding('C01/K-jacobian/%s' % (cls or 'row'), dict(jacobian=True), detail or ob['name'], reproduced=bad) != 'not-reproduced':
+                    jdone = True
+    rep.end_kernel()
+    rep.kernel('K-bounds', functions=[F + ':SourceFinder.estimate_lmfit_parinfo'], bounds='all island sizes xsize, ysize >= 1 and pixel beams a >= b > 0',
+               assumes=['slice: the statements assigning sx_min/sx_max/sy_min/sy_max (backward-closed)', 'adequacy of the bounds for every source is NOT decided; only that they do not depend on the image axis the island is long in'])
+    try:
+        fac, text = slicer.slice_function(F, 'estimate_lmfit_parinfo', targets=['sx_min', 'sx_max', 'sy_min', 'sy_max'], params=['data', 'pixbeam'], cls='SourceFinder',
+                                          returns=['sx_min', 'sx_max', 'sy_min', 'sy_max'], flatten_loops=True)
+        st, res = explore(h_bounds(fac))
+        rep.stats(st)
+        for r in res:
+            for ob in r['obligations']:
+                rep.count(ob['result'], ob['name'])
+                if ob['result'] == 'sat':
+                    bad, cls, detail = None, None, None
+                    for el in ((0.0, 90.0), (90.0, 0.0), (90.0, 45.0), (0.0, 45.0)):
+                        bad, cls, detail = closed_loop(5, 1, elongated=el)
+                        if bad:
+                            break
+                    rep.finding('C01/K-bounds/%s' % (cls or ob['name'].split(':')[-1]), dict(seed=5, elongated=list(el)), detail or ob['name'], reproduced=bool(bad))
+            rep.sample(dict(kernel='K-bounds', slice=text[:700], obligations=[(o['name'], o['result']) for o in r['obligations']]))
+    except slicer.AnchorMissing as e:
+        rep.inconc('anchor-missing %s' % e)
+    rep.end_kernel()
     bad, cls, detail = closed_loop(rep.seed, 3)
     rep.validated_runs(3)
     if bad:
         rep.finding('C01/K-closed-loop/%s' % cls, dict(seed=rep.seed), detail)
+    for el in ((0.0, 90.0), (90.0, 0.0)):
+        bad, cls, detail = closed_loop(5, 1, elongated=el)
+        rep.validated_runs(1)
+        if bad:
+            rep.finding('C01/K-closed-loop/%s' % cls, dict(seed=5, elongated=list(el)), detail)
     rep.not_decided += ['the closed loop itself (optimiser convergence, island detection on the rendered image): exercised only by the noise-free replay oracle on a few random injections',
                         'noise case (within 5 reported standard errors)', 'internally estimated background/noise (BANE)', 'adequacy of the parameter bounds of estimate_lmfit_parinfo']
 
@@ -278,6 +367,14 @@ def handle(rep, res, kname, done):
 
 
 def replay(w):
+    if w['witness'].get('jacobian'):
+        from checks import C04
+        import random
+        bad, cls, detail = C04.num_jac_check(C04.default_vals(1, random.Random(1)), 1, [{p: True for p in C04.NAMES}])
+        return bad, '%s: %s' % (cls, detail)
+    if w['witness'].get('elongated'):
+        bad, cls, detail = closed_loop(int(w['witness'].get('seed', 5)), 1, elongated=tuple(w['witness']['elongated']))
+        return bad, '%s: %s' % (cls, detail)
     bad, cls, detail = closed_loop(int(w['witness'].get('seed', 3)), 4)
     return bad, '%s: %s' % (cls, detail)
 
